@@ -1141,9 +1141,17 @@ func (s *Stream) RawFd() int {
 }
 
 func (s *Stream) CloseNextLayer() (err error) {
-	if s.conn != nil {
-		err = s.conn.Close()
-		s.conn = nil
+	conn := s.conn
+	s.conn = nil
+
+	if s.stream != nil {
+		// Reads and writes still registered with the event loop can never complete once the connection is gone: left
+		// alone they would keep IO.Pending() above zero forever. They complete with ErrCancelled instead.
+		s.stream.Cancel()
+	}
+
+	if conn != nil {
+		err = conn.Close()
 	}
 	return
 }
